@@ -174,6 +174,8 @@ def rand_calls(rng, maxlen=30, valid_bias=0.8):
             padded = rng.random() < 0.5
             if rng.random() < valid_bias:
                 ln = len(s) + (rng.randrange(0, 5) if padded else 0)
+                if padded and rng.random() < 0.06:
+                    ln = len(s) + rng.choice([250, 254, 255, 256, 257, rng.randrange(258, 700)])      # more padding than fits one byte-sized count
             else:
                 ln = max(0, len(s) + rng.randrange(-3, 4))
             calls.append({"op": rng.choice(["add_fixed_string", "add_fixed_encoded_string"]), "s": str_codes(s), "len": ln, "padded": padded, "_py": s})
